@@ -44,7 +44,7 @@ PY
 for c in $checks; do
   out=$(cd /verif && VERIF_DIR=$so VERIF_BUDGET_S=${BUDGET:-150} $so/mc check $c ${TIER:-quick} 2>&1)
   echo "$c exit=$? $(echo "$out" | grep -c '^VIOLATION') violation line(s)"
-  echo "$out" | grep -A2 "^VIOLATION" | head -9 | cut -c1-400
+  echo "$out" | grep -A2 "^VIOLATION" | head -9 | cut -c1-400; echo "$out" | grep "^ERROR\|^NONDET\|^UNSTABLE" | head -5 | cut -c1-600
 done
 git -C /repo worktree remove --force $wt
 rm -rf $so
